@@ -46,7 +46,8 @@ def parseRedir (s : String) : Option Redir :=
     | "rw" => do pure ⟨fd, .file .fileInOut (← pathOf operand)⟩
     | "dupin" | "dupout" =>
       let src := if operand = "-" then some DupSrc.closeIt
-                 else if operand = "z" ∨ operand = "big" ∨ operand = "neg" then some DupSrc.malformed
+                 else if operand = "z" ∨ operand = "big" then some DupSrc.malformed
+                 else if operand = "neg" then some DupSrc.negOne
                  else operand.toNat?.map DupSrc.fd
       src.map fun s => ⟨fd, .dup (op = "dupin") s⟩
     | "here" => some ⟨fd, .hereDoc [5, 6, 10]⟩
@@ -70,6 +71,7 @@ def parseKind (s : String) : Option Kind :=
   | "empty" => some .empty | "exec" => some .exec | "paren" => some .paren
   | "cmdexec" => some .commandExec | "dot" => some .dot | "dotx" => some .dotMissing
   | "execnf" => some .execNotFound | "execne" => some .execNoExec | "cmdexecnf" => some .commandExecNotFound
+  | "guard" => some .guardUndo | "guardkeep" => some .guardKeep
   | _ => none
 
 /-- initial world and table: standard descriptors (read-write, appending), then the pre-opened ones -/
@@ -118,8 +120,31 @@ def showFile (w : World) (i : Nat) : String :=
 def showFiles (w : World) : String :=
   ",".intercalate ([0, 1, 3, 4, 5, 6, 9, 11].map fun i => s!"{fileName i}:{showFile w i}")
 
+def showErrno : Errno → String
+  | .EBADF => "EBADF" | .EMFILE => "EMFILE" | .EEXIST => "EEXIST" | .ENOENT => "ENOENT"
+  | .ENOTDIR => "ENOTDIR" | .EISDIR => "EISDIR" | .EACCES => "EACCES" | .EIO => "EIO"
+
+/-- the class of `redir::ErrorCause` (variant, descriptor, errno — no message, no pathname) -/
+def showCause : ErrCause → String
+  | .expansion => "exp"
+  | .fdNotOverwritten fd e => s!"fno:{fd}:{showErrno e}"
+  | .reservedFd fd => s!"rsv:{fd}"
+  | .openFile e => s!"open:{showErrno e}"
+  | .malformedFd => "mal"
+  | .unreadableFd fd => s!"unr:{fd}"
+  | .unwritableFd fd => s!"unw:{fd}"
+  | .tmpUnavailable e => s!"tmp:{showErrno e}"
+  | .unsupported => "uns"
+  | .nulByte => "nul"
+
 def observeCmd (tr : Trace) : String :=
-  let d := match tr.during, tr.wrote, tr.readRes with
+  let d := match tr.steps with
+    | some (steps, cause) =>
+      -- the guard driven directly: the table after every `perform_redir`, then the error cause
+      let ss := steps.map fun (ws, ts) => showSnap ws ts
+      s!"G:{"/".intercalate ss}|e{(cause.map showCause).getD "-"}"
+    | none =>
+    match tr.during, tr.wrote, tr.readRes with
     | some (wd, td), some wrote, some (rd, tainted) =>
       let r := match rd with
         | none => "e"
